@@ -165,8 +165,9 @@ class Kinds:
                             if isinstance(el, ast.Name):
                                 env[el.id] = ks[k] if ks is not None and k < len(ks) else None
                 elif isinstance(s, ast.AugAssign) and isinstance(s.target, ast.Name):
+                    # an in-place operator keeps the element type of its target (numpy refuses a cast that would change the kind)
                     a, b = env.get(s.target.id), self.kind(fi, s.value, env)
-                    env[s.target.id] = join(a, b) if a and b else None
+                    env[s.target.id] = a if a else None
                 elif isinstance(s, ast.Expr) and isinstance(s.value, ast.Call) and isinstance(s.value.func, ast.Attribute) and s.value.func.attr == "append" \
                         and isinstance(s.value.func.value, ast.Name) and s.value.func.value.id in lists and s.value.args:
                     nm = s.value.func.value.id
